@@ -100,7 +100,10 @@ PROP_HEADER = {'content_type': 'content-type', 'cache_control': 'cache-control',
 OBSERVED = ('x-a', 'x-b', 'content-type', 'vary', 'cache-control', 'etag', 'location', 'content-length',
             'content-disposition', 'link', 'x-never')
 SC_CASINGS = ('Set-Cookie', 'set-cookie')
-COOKIE_PROFILES = ({}, {'max_age': 60, 'secure': False, 'http_only': False, 'path': '/p'})
+COOKIE_PROFILES = ({}, {'max_age': 60, 'secure': False, 'http_only': False, 'path': '/p'},
+                   # every attribute the API knows, so that a re-issue with profile 0 must drop each of them
+                   {'max_age': 5, 'domain': 'ex.org', 'path': '/q', 'same_site': 'Strict', 'partitioned': True,
+                    'expires': datetime.datetime(2031, 1, 2, 3, 4, 5)})
 
 
 class Alphabet:
